@@ -150,8 +150,35 @@ func init() {
 		}
 	}
 	// go/constant (T4): ToInt keeps the integer value; Int64Val/Uint64Val are exact inside the range
+	libModels["constant.BinaryOp"] = func(x *Exec, st *State, e *ast.CallExpr, a []Value, _ []types.Type) (Value, bool) {
+		return Term{"(constBinaryOp " + asTerm(a[0]).S + " " + asTerm(a[1]).S + " " + asTerm(a[2]).S + ")", SInt}, true
+	}
+	libModels["constant.UnaryOp"] = func(x *Exec, st *State, e *ast.CallExpr, a []Value, _ []types.Type) (Value, bool) {
+		return Term{"(constUnaryOp " + asTerm(a[0]).S + " " + asTerm(a[1]).S + " " + asTerm(a[2]).S + ")", SInt}, true
+	}
+	libModels["constant.Shift"] = func(x *Exec, st *State, e *ast.CallExpr, a []Value, _ []types.Type) (Value, bool) {
+		return Term{"(constShift " + asTerm(a[0]).S + " " + asTerm(a[1]).S + " " + asTerm(a[2]).S + ")", SInt}, true
+	}
+	libModels["constant.Value.Kind"] = func(x *Exec, st *State, e *ast.CallExpr, a []Value, _ []types.Type) (Value, bool) {
+		return Term{"(constKind " + asTerm(a[0]).S + ")", SInt}, true
+	}
+	libModels["constant.BitLen"] = func(x *Exec, st *State, e *ast.CallExpr, a []Value, _ []types.Type) (Value, bool) {
+		// BitLen(x) <= k  <=>  |x| < 2^k  (documented: number of bits to represent |x|)
+		c := asTerm(a[0])
+		b := x.fresh("bitlen", SInt)
+		ci := "(absZ (constInt " + c.S + "))"
+		st.assume("(>= " + b.S + " 0)")
+		for _, k := range []int{7, 8, 15, 16, 31, 32, 63, 64} {
+			st.assume(fmt.Sprintf("(= (<= %s %d) (< %s %s))", b.S, k, ci, pow2(k)))
+		}
+		x.noteAssume("trusted (T4): constant.BitLen(x) <= k iff |x| < 2^k, instantiated for k in {7,8,15,16,31,32,63,64}")
+		return b, true
+	}
 	libModels["constant.ToInt"] = func(x *Exec, st *State, e *ast.CallExpr, a []Value, _ []types.Type) (Value, bool) {
-		return a[0], true
+		// the integer value when c is representable as an integer, otherwise a value of kind Unknown
+		c := asTerm(a[0])
+		r := Term{"(constToInt " + c.S + ")", SInt}
+		return r, true
 	}
 	libModels["constant.Int64Val"] = func(x *Exec, st *State, e *ast.CallExpr, a []Value, _ []types.Type) (Value, bool) {
 		c := asTerm(a[0])
@@ -674,6 +701,20 @@ func (x *Exec) applyContract(c *Contract, f *types.Func, e *ast.CallExpr, args [
 		for _, a := range c.Assigns {
 			x.heapHavoc(st, a)
 		}
+		if len(c.Assigns) == 0 && c.Opts["function"] != "true" {
+			// no frame given: everything the callee's body may assign (computed from its source) is havocked
+			if fd, fpkg := x.L.funcDeclPkg(f); fd != nil && fd.Body != nil {
+				save := x.pkg
+				x.pkg = fpkg
+				ms := &modSet{vars: map[types.Object]bool{}, heap: map[string]bool{}, visited: map[*types.Func]bool{f: true}}
+				x.modified(fd.Body, ms)
+				x.pkg = save
+				for _, k := range sortedKeys(ms.heap) {
+					x.heapHavoc(st, k)
+				}
+				st.names["$frame:"+calleeUnit] = sortedKeys(ms.heap)
+			}
+		}
 	}
 	// a generator with a function-result contract yields a modelled function value
 	if len(c.FnEnsures) > 0 && sig.Results().Len() == 1 {
@@ -885,8 +926,8 @@ func (x *Exec) evalSpecCall(e *ast.CallExpr, st *State) (Value, types.Type) {
 			q = "exists"
 		}
 		return Term{"(" + q + " ((" + qn + " String)) " + body + ")", SBool}, types.Typ[types.Bool]
-	case "rvInt", "rvFloat", "rvComplex", "rvString", "rvBool":
-		which := map[string]string{"rvInt": "I", "rvFloat": "F", "rvComplex": "C", "rvString": "S", "rvBool": "B"}[name]
+	case "rvInt", "rvFloat", "rvComplex", "rvString", "rvBool", "rvIface":
+		which := map[string]string{"rvInt": "I", "rvFloat": "F", "rvComplex": "C", "rvString": "S", "rvBool": "B", "rvIface": "X"}[name]
 		return x.rvRead(st, which, x.evalT(e.Args[0], st)), nil
 	case "calledAt": // calledAt(k): the k-th function value applied through reflect.Value.Call
 		k := x.evalT(e.Args[0], st)
@@ -934,7 +975,12 @@ func (x *Exec) evalSpecCall(e *ast.CallExpr, st *State) (Value, types.Type) {
 		if a.Sort == SStr {
 			return Term{"(str.len " + a.S + ")", SInt}, types.Typ[types.Int]
 		}
-		_ = t
+		if t != nil {
+			if _, isMap := t.Underlying().(*types.Map); isMap {
+				l := x.uf("mlen", SInt, a)
+				return l, types.Typ[types.Int]
+			}
+		}
 		return x.slen(a), types.Typ[types.Int]
 	case "has": // has(m, k): map membership
 		mv, mt := x.eval(e.Args[0], st)
